@@ -65,14 +65,23 @@ class AddConditionTransformation(ConditionTransformation):
             else:
                 conditions = self.conditions
 
-            rule.detection.detections[self.name] = SigmaDetection.from_definition(conditions)
-            self.processing_item_applied(rule.detection.detections[self.name])
+            # Don't overwrite an existing detection (e.g. added by another instance that has drawn
+            # the same name): choose a free name derived from the configured one.
+            self._applied_name = self.name
+            i = 0
+            while self._applied_name in rule.detection.detections:
+                i += 1
+                self._applied_name = f"{self.name}_{i}"
+
+            rule.detection.detections[self._applied_name] = SigmaDetection.from_definition(
+                conditions
+            )
+            self.processing_item_applied(rule.detection.detections[self._applied_name])
             super().apply(rule)
 
     def apply_condition(self, cond: SigmaCondition) -> None:
+        name = getattr(self, "_applied_name", self.name)
         if cond.condition:  # If condition is not empty
-            cond.condition = (
-                "not " if self.negated else ""
-            ) + f"{self.name} and ({cond.condition})"
+            cond.condition = ("not " if self.negated else "") + f"{name} and ({cond.condition})"
         else:  # If condition is empty, just use the added condition name
-            cond.condition = ("not " if self.negated else "") + self.name
+            cond.condition = ("not " if self.negated else "") + name
